@@ -8,6 +8,6 @@ trap 'git -C /repo worktree remove --force '$wt EXIT
 git -C $wt apply $sd/patch.diff || { echo "PATCH DOES NOT APPLY"; exit 2; }
 cd /verif
 for c in "$@"; do
-  out=$(PYTHONPATH=$wt VERIF_EVIDENCE_DIR=/dev/shm/try_evidence VERIF_NOCONFIRM=${NOCONFIRM:-0} timeout 3000 ./check "$c" --tier ${TIER:-quick} 2>&1); rc=$?
+  out=$(PYTHONPATH=$wt VERIF_EVIDENCE_DIR=/dev/shm/try_evidence VERIF_REPLAY_DIR=/dev/shm/try_replays VERIF_NOCONFIRM=${NOCONFIRM:-0} timeout 3000 ./check "$c" --tier ${TIER:-quick} 2>&1); rc=$?
   echo "$(basename $sd) $c rc=$rc $(echo "$out" | grep -c '^VIOLATION') violation line(s)"
 done
